@@ -12,6 +12,7 @@ import LitexProofs.Stream.HandshakePacketizer
 import LitexProofs.Stream.HandshakePacketizerU
 import LitexProofs.Stream.HandshakeLive
 import LitexProofs.Stream.HandshakeGlue
+import LitexProofs.Stream.HandshakeFlow
 import LitexProofs.Stream.HandshakePipeActor
 import LitexProofs.Stream.HandshakeCrossbar
 import LitexProofs.Stream.HandshakeGearboxLive
@@ -36,7 +37,7 @@ import LitexProofs.Stream.HandshakeGearboxLive
   | AsyncFIFO                     | —  (two clocks: C05)                 | C05                       | C05                                   | —    | C05                                 |
   | ClockDomainCrossing same cd   | stages (cdcSameStages b)             | cdcSame_stable            | cdcSame_no_livelock ≤ 2               | yes  | A,B `cdcsame b`; other cd: C05      |
   | Delay n                       | delay n / stages (delayStages n)     | delay_stable, delayn_stable | delay_no_livelock n+1, accepts 1    | yes  | A,B `delay n`, `delayn n`           |
-  | Pipeline(m_1..m_n)            | stages l (any stage list) / comp     | pipeline_stable           | pipeline_no_livelock ∏K, accepts 1(v,w)| yes | A,B `stages …`, chain3, chain_fb_pr |
+  | Pipeline(m_1..m_n)            | stages l (any stage list) / comp     | pipeline_stable           | pipeline_no_livelock_tight 1+Σlat (tight), ∏K in class, accepts 1 (v,w) | yes | A,B `stages …`, chain3, chain_fb_pr |
   | BufferizeEndpoints            | bufferize bs bd pv pr e (any Good e) | bufferize_stable          | bufferize_no_livelock, up/down, acc 1 | yes  | A,B `bufferize …`, `bufferized_up`  |
   | _UpConverter / Pack           | upConv r                             | upConv_stable             | accepts 1, no_livelock r+1            | yes  | A,B `up …`                          |
   | _DownConverter / Unpack       | downConv r                           | downConv_stable           | no_livelock 1, accepts r              | yes  | A,B `down …`                        |
@@ -647,6 +648,48 @@ example : pipeB [.pv, .fifo 2, .pr] + 1 = 4 ∧ pipeB [.pr, .fifoB 16, .fifo 3, 
      ((stages zTok [.pv, .fifo 2, .pr]).delivered (stages zTok [.pv, .fifo 2, .pr]).init [c, c, c, c]).length = 2) := by
   decide
 
+/-! ### Tight (additive) windows for pipelines of stages
+
+  For store-and-forward stages the windows add instead of multiplying (`Flow.comp`: once a token is in the downstream
+  part it drains whatever the upstream part does): a delivery at least every `1 + Σ stageLat` cooperative cycles,
+  `stageLat` = 0 (connect, PipeReady), 1 (PipeValid, SyncFIFO), 2 (SyncFIFOBuffered). -/
+
+theorem pipeline_no_livelock_tight (z : Tok α) (l : List Stage) (hl : ∀ st ∈ l, stageOk st) :
+    DeliversWithin (stages z l) (pipeLat l + 1) :=
+  (stages_drain z l hl).delivers (pipeInv_init z l)
+
+theorem pipeline_progress_tight (z : Tok α) (l : List Stage) (hl : ∀ st ∈ l, stageOk st) :
+    ProgressWithin (stages z l) (pipeLat l + 1) := (pipeline_no_livelock_tight z l hl).progress
+
+/-- The bound is attained: the 7-stage pipeline of the B-mode grid has window 6 (the product bound is 24); five
+    cooperative cycles from reset deliver nothing, six deliver one token. -/
+example :
+    let l : List Stage := [.pr, .fifoB 16, .fifo 3, .pr, .pv, .wire, .fifo 2]
+    let c : In Nat := ⟨true, ⟨1, false, true⟩, true⟩
+    pipeLat l + 1 = 6 ∧ ((stages zTok l).delivered (stages zTok l).init (List.replicate 5 c)).length = 0 ∧
+    ((stages zTok l).delivered (stages zTok l).init (List.replicate 6 c)).length = 1 := by decide
+
+theorem buffer_no_livelock_tight (z : Tok α) (pv pr : Bool) :
+    DeliversWithin (stages z (bufferStages pv pr)) (pipeLat (bufferStages pv pr) + 1) :=
+  pipeline_no_livelock_tight z _ (bufferStages_ok pv pr)
+
+/-- `SyncFIFO(layout, depth, buffered)`, every depth: a delivery at least every 3 cooperative cycles. -/
+theorem syncFifoAny_no_livelock_tight (z : Tok α) (depth : Nat) (buffered : Bool) :
+    DeliversWithin (stages z (syncFifoStages depth buffered)) (pipeLat (syncFifoStages depth buffered) + 1) ∧
+    pipeLat (syncFifoStages depth buffered) + 1 ≤ 3 :=
+  ⟨pipeline_no_livelock_tight z _ (syncFifoStages_ok depth buffered),
+   Nat.succ_le_succ (pipeLat_syncFifoStages_le depth buffered)⟩
+
+/-- `Delay(layout, n)`: window exactly `n + 1`. -/
+theorem delayn_no_livelock_tight (z : Tok α) (n : Nat) : DeliversWithin (stages z (delayStages n)) (n + 1) := by
+  have h := pipeline_no_livelock_tight z _ (delayStages_ok n)
+  rw [pipeLat_delayStages] at h
+  exact h
+
+theorem cdcSame_no_livelock_tight (z : Tok α) (b : Bool) :
+    DeliversWithin (stages z (cdcSameStages b)) (pipeLat (cdcSameStages b) + 1) :=
+  pipeline_no_livelock_tight z _ (cdcSameStages_ok b)
+
 /-! ### The stage selections of stream.py: every constructor call gives a legal stage list -/
 
 theorem buffer_stable (z : Tok α) (pv pr : Bool) : KeepsContract (stages z (bufferStages pv pr)) :=
@@ -806,6 +849,11 @@ theorem monitored_pipeline (z : Tok α) (l : List Stage) (hl : ∀ st ∈ l, sta
     KeepsContract (monitored (stages z l) w cfg df) ∧ DeliversWithin (monitored (stages z l) w cfg df) (pipeB l + 1) :=
   ⟨monitored_stable (stages_good z l hl) (pipeInv_init z l) w cfg df,
    monitored_no_livelock (stages_good z l hl) (pipeInv_init z l) w cfg df⟩
+
+/-- ... with the tight window of the pipeline (the Monitor adds no latency). -/
+theorem monitored_pipeline_tight (z : Tok α) (l : List Stage) (hl : ∀ st ∈ l, stageOk st) (w : Nat) (cfg : MonCfg)
+    (df : Bool) : DeliversWithin (monitored (stages z l) w cfg df) (pipeLat l + 1) :=
+  (monitored_delMeasure (stages_drain z l hl).measure w cfg df).delivers (pipeInv_init z l)
 
 /-- Non-vacuity: a PipeValid with a 4-bit token counter on its source — three cooperative cycles deliver two tokens
     and the counter has counted exactly those two source handshakes. -/
